@@ -1098,6 +1098,8 @@ impl<'forest, I: Interner> SolveState<'forest, I> {
                 num_universes,
                 canonical_strand.clone(),
             );
+            // (As in `select_subgoal`: unification calls into the database.)
+            self.stack.top().active_strand = Some(canonical_strand.clone());
             match self.merge_answer_into_strand(&mut infer, &mut strand) {
                 Err(e) => {
                     debug!(?strand, "could not merge into current strand");
@@ -1565,11 +1567,17 @@ impl<'forest, I: Interner> SolveState<'forest, I> {
                     num_universes,
                     canonical_strand.clone(),
                 );
-                match self.forest.get_or_create_table_for_subgoal(
+                // Creating the table calls into the database. Should that unwind,
+                // `Drop for SolveState` must find this strand (it only sees the
+                // strands recorded in the stack), so leave a copy there meanwhile.
+                self.stack.top().active_strand = Some(canonical_strand.clone());
+                let table_for_subgoal = self.forest.get_or_create_table_for_subgoal(
                     self.context,
                     &mut infer,
                     &strand.ex_clause.subgoals[subgoal_index],
-                ) {
+                );
+                self.stack.top().active_strand = None;
+                match table_for_subgoal {
                     Some((subgoal_table, universe_map)) => {
                         canonical_strand.value.selected_subgoal = Some(SelectedSubgoal {
                             subgoal_index,
